@@ -237,4 +237,30 @@ func init() {
 			{ID: "R01.3", Title: "scope recording of closure literals (see C01)", Floor: 3, Run: ruleR013},
 		},
 	})
+	register(&Property{
+		ID:        "C17",
+		Technique: "abstract evaluation of the string escaper (three-valued evaluation of its switch/if conditions for every mandatory and representative code point; no code is run), typestate check of the separator flag on CFG guards, who-writes check of the JSON buffer, must-pass-through of Close behind Open in the generic traversal",
+		Explanation: "Decides the structural side of JSON validity: for all of U+0000-U+001F, quote, backslash and representative BMP/supplementary code points every sink the escaper can reach is a valid JSON representation of that code point (\\u%04x only up to U+FFFF); the separator flag belongs to the container being written, starts true, is cleared with the first member and guards the comma; brackets match; " +
+			"non-constant text reaches the buffer only inside the escaper; every path of the traversal from Open to a successful return calls Close, keys are collected by append and a member is exported only if Get finds its key. Not decided: that scalars' ToString is the intended string form, round-trip equality of decoded documents, invalid UTF-8.",
+		Rules: []*Rule{
+			{ID: "R17.1", Title: "JSON string escaper: every reachable sink is a valid JSON representation (abstract evaluation per code point)", Floor: 2, Run: ruleR171},
+			{ID: "R17.2", Title: "separator typestate of list and map exporters; matching brackets", Floor: 2, Run: ruleR172},
+			{ID: "R17.3", Title: "non-constant text reaches the JSON buffer only through the escaper", Floor: 10, Run: ruleR173},
+			{ID: "R17.4", Title: "generic traversal: Close on every successful path behind Open; only present keys are exported", Floor: 3, Run: ruleR174},
+			{ID: "R13.1", Title: "key-domain agreement of the map storages (see C13)", Floor: 9, Run: ruleR131},
+		},
+	})
+	register(&Property{
+		ID:        "C18",
+		Technique: "name-position check (constant, constant-fed parameter or validator-dominated) of every Open/Attr call, who-writes check of the raw sinks, abstract evaluation of the XML escaper per code point, structured depth counting of Open/Close with role summaries per function, recover-semantics check of ToHtml",
+		Explanation: "Decides the structural side of injection freedom and well-formedness: every element and attribute name is a constant, a parameter fed with constants only, or dominated by the XML name validator; a map is exported in attribute form only if all its keys passed that validator; raw sinks receive constants, names or the host's custom renderer output; " +
+			"attribute values and character data go through the escaper, whose every reachable sink for < > & ' \" is the entity; on every non-failing path each function changes the element depth by exactly its role (+1 open, -1 close, 0 otherwise); ToHtml recovers panics into its error. Not decided: illegal XML characters (excluded by the property), attribute-value normalisation of CR/LF/TAB by XML parsers, javascript: URLs, CSS semantics.",
+		Rules: []*Rule{
+			{ID: "R18.1", Title: "element and attribute names are constants or validated; attribute form only for maps whose keys are all names", Floor: 35, Run: ruleR181},
+			{ID: "R18.2", Title: "raw sinks receive constants, names or the custom renderer's output; values and text go through the escaper", Floor: 12, Run: ruleR182},
+			{ID: "R18.3", Title: "XML escaper: < > & ' \" always become entities (abstract evaluation per code point)", Floor: 1, Run: ruleR183},
+			{ID: "R18.4", Title: "elements are balanced: every function changes the depth by exactly its role on non-failing paths", Floor: 15, Run: ruleR184},
+			{ID: "R18.5", Title: "ToHtml recovers panics into its error result", Floor: 1, Run: ruleR185},
+		},
+	})
 }
